@@ -117,6 +117,10 @@ pub struct UnmockCase {
     /// response, i.e. the real function (the surplus is reported by verification, not at the call)
     #[serde(default)]
     pub quota: u8,
+    /// strict mock only: a LATER clause of the same method accepts the same calls and answers a constant; the
+    /// earlier applies_unmocked() clause keeps its priority (first declared wins, whatever the kind of response)
+    #[serde(default)]
+    pub later_answering_clause: bool,
 }
 
 impl UnmockCase {
@@ -351,6 +355,11 @@ pub fn source(c: &UnmockCase) -> String {
         clauses.push(format!(
             "M::m{t}.each_call(&|m| m.func(|{pat}, _| true)).applies_unmocked(){quantify}"
         ));
+        if c.later_answering_clause {
+            clauses.push(format!(
+                "M::m{t}.each_call(&|m| m.func(|{pat}, _| true)).returns(424242u32)"
+            ));
+        }
     } else if c.mention_unmatched {
         clauses.push(format!(
             "M::m{t}.each_call(&|m| m.func(|{pat}, _| false)).returns(0u32)"
@@ -516,6 +525,7 @@ pub fn judge(c: &UnmockCase, line: &str) -> Result<CaseInfo, String> {
         .class_if(c.partial && c.mention_unmatched, "partial:unmatched")
         .class_if(!c.partial, "strict:applies_unmocked")
         .class_if(c.warmup_calls() > 0, "observed-call-is-surplus-to-an-exact-count")
+        .class_if(!c.partial && c.later_answering_clause, "a-later-overlapping-clause-answers-a-constant")
         .class_if(m.has_default, "provided-method(default body)")
         .class_if(
             m.has_default && c.partial && c.mention_unmatched,
@@ -605,15 +615,15 @@ pub fn case_strategy() -> impl Strategy<Value = UnmockCase> {
         any::<bool>(),
         proptest::option::weighted(0.35, 0..=6u8),
         proptest::bool::weighted(0.3),
-        (prop_oneof![2 => Just(0u8), 1 => any::<u8>()], proptest::bool::weighted(0.3), prop_oneof![2 => Just(0u8), 1 => 1..=3u8]),
+        (prop_oneof![2 => Just(0u8), 1 => any::<u8>()], proptest::bool::weighted(0.3), prop_oneof![2 => Just(0u8), 1 => 1..=3u8], proptest::bool::weighted(0.3)),
     )
-        .prop_map(|(methods, t, partial, mention_unmatched, recursion, prior_error, (static_before, extra_ordered_clause, quota))| {
+        .prop_map(|(methods, t, partial, mention_unmatched, recursion, prior_error, (static_before, extra_ordered_clause, quota, later_answering_clause))| {
             let target = t as usize % methods.len();
-            UnmockCase { methods, target, partial, mention_unmatched, recursion, prior_error, static_before, extra_ordered_clause, quota }
+            UnmockCase { methods, target, partial, mention_unmatched, recursion, prior_error, static_before, extra_ordered_clause, quota, later_answering_clause }
         })
 }
 
-pub const RULE: &str = "programs = generated traits of 1-4 methods (plus an optional recursive method), each with its own unmock_with registration {_, path, path(permuted / subset of self and the parameters)}, &self or &mut self receivers, 0-4 parameters from {u8, i32, &str, &u32, &mut u32, String} with adjacent parameters often sharing a type, sync / async fn / -> impl Future; the target method is resolved to the real implementation through a partial mock (unmentioned or mentioned-but-unmatched) or through applies_unmocked() in a strict mock (optionally quantified n_times(q) with q earlier calls, so that the observed call is surplus and still gets the pattern's response); recursion depth 0..6 through the mock with the base case answered by a counted pattern. Non-trivial = >= 2 methods with different registration forms, or explicit parameters, or recursion depth >= 2; distinct = distinct case";
+pub const RULE: &str = "programs = generated traits of 1-4 methods (plus an optional recursive method), each with its own unmock_with registration {_, path, path(permuted / subset of self and the parameters)}, &self or &mut self receivers, 0-4 parameters from {u8, i32, &str, &u32, &mut u32, String} with adjacent parameters often sharing a type, sync / async fn / -> impl Future; the target method is resolved to the real implementation through a partial mock (unmentioned or mentioned-but-unmatched) or through applies_unmocked() in a strict mock (optionally quantified n_times(q) with q earlier calls, so that the observed call is surplus and still gets the pattern's response; optionally followed by a later overlapping clause that answers a constant and must not win); recursion depth 0..6 through the mock with the base case answered by a counted pattern. Non-trivial = >= 2 methods with different registration forms, or explicit parameters, or recursion depth >= 2; distinct = distinct case";
 
 fn spec<'a>() -> Spec<'a, UnmockCase> {
     Spec {
